@@ -68,12 +68,22 @@ type cfgSpec struct {
 	Chain    *chainSpec        `json:"reload_chain,omitempty"`
 	Stale    map[string]string `json:"tokens_not_in_force,omitempty"`
 	Declared []string          `json:"lists_declaring_unresolvable_members,omitempty"`
+	// Soft (content_test.go): tokens in force whose source holds them with blanks / a newline around them. The docs
+	// do not say whether a source content is trimmed, so a request that carries such a token may be admitted or not.
+	Soft []string `json:"tokens_whose_source_content_is_padded,omitempty"`
+	// Restart, Rename (restart_test.go): what the CANDIDATE of a reload pair changes besides its token lists — a
+	// setting that only a restart can apply, and the names of the routes that own the two pull endpoints.
+	Restart string `json:"candidate_changes_restart_only_setting,omitempty"` // max_batch | grpc_listen | lease_ttl | deliver
+	Rename  string `json:"candidate_renames_routes,omitempty"`               // A | B | AB | swap
 }
 
 func (c cfgSpec) label() string {
 	hist := map[bool]string{true: "/after-reload"}[c.Reload]
 	if c.From != nil {
 		hist = fmt.Sprintf("/after-reload-from(%s g=%v a=%v b=%v adm=%v)", c.From.Deploy, c.From.Global, c.From.A, c.From.B, c.From.Admin)
+	}
+	if c.Restart != "" || c.Rename != "" {
+		hist += fmt.Sprintf("/candidate-also-changes(restart-only=%s,route-names=%s)", c.Restart, c.Rename)
 	}
 	if c.Refused {
 		hist += "/reload-was-refused"
@@ -172,13 +182,22 @@ func dsl(c cfgSpec, a addrs, dir string) string {
 		return s.String()
 	}
 	fmt.Fprintf(&b, "ingress { listen %q }\n", a.ingress)
-	pullListen, adminListen := a.pull, a.admin
+	pullListen, adminListen, grpcListen := a.pull, a.admin, a.grpc
 	if c.Deploy == "shared" {
 		adminListen = pullListen
 	}
-	fmt.Fprintf(&b, "pull_api { listen %q grpc_listen %q", pullListen, a.grpc)
+	if c.Restart == "grpc_listen" { // same (per boot unique) host, another port
+		grpcListen = strings.TrimSuffix(grpcListen, ":19943") + ":19944"
+	}
+	fmt.Fprintf(&b, "pull_api { listen %q grpc_listen %q", pullListen, grpcListen)
 	if p := c.pullPrefix(); p != "" {
 		fmt.Fprintf(&b, " prefix %s", p)
+	}
+	switch c.Restart {
+	case "max_batch":
+		b.WriteString(" max_batch 7")
+	case "lease_ttl":
+		b.WriteString(" default_lease_ttl 45s")
 	}
 	b.WriteString(toks(c.Global))
 	b.WriteString(" }\n")
@@ -188,13 +207,29 @@ func dsl(c cfgSpec, a addrs, dir string) string {
 	}
 	b.WriteString(toks(c.Admin))
 	b.WriteString(" }\n")
-	fmt.Fprintf(&b, "/ra { application \"appa\" endpoint_name \"epa\" pull { path /ea%s } }\n", toks(c.A))
-	fmt.Fprintf(&b, "/rb { pull { path /eb%s } }\n", toks(c.B))
+	// the routes that own the endpoints /ea and /eb: /ra and /rb unless the candidate of a reload pair renames them
+	ra, rb := "/ra", "/rb"
+	switch c.Rename {
+	case "A":
+		ra = "/ra2"
+	case "B":
+		rb = "/rb2"
+	case "AB":
+		ra, rb = "/ra2", "/rb2"
+	case "swap":
+		ra, rb = "/rb", "/ra"
+	}
+	fmt.Fprintf(&b, "%s { application \"appa\" endpoint_name \"epa\" pull { path /ea%s } }\n", ra, toks(c.A))
+	fmt.Fprintf(&b, "%s { pull { path /eb%s } }\n", rb, toks(c.B))
 	if c.HasC {
 		fmt.Fprintf(&b, "/rc { pull { path /ec%s } }\n", toks(c.C))
 	}
 	// a labelled push route without backlog, so that DELETE of a managed endpoint can take effect
-	b.WriteString("/rd { application \"appd\" endpoint_name \"epd\" deliver \"https://c11.example/hook\" { } }\n")
+	hook := "https://c11.example/hook"
+	if c.Restart == "deliver" {
+		hook += "2"
+	}
+	fmt.Fprintf(&b, "/rd { application \"appd\" endpoint_name \"epd\" deliver %q { } }\n", hook)
 	return b.String()
 }
 
